@@ -227,7 +227,7 @@ func runC18(r *rt.Runner) {
 		return out
 	}
 	pristine := battery()
-	nHist := r.N(40, 2500)
+	nHist := r.N(96, 2500)
 	for k := 0; k < nHist; k++ {
 		r.Case("isolation", func(c *rt.C) {
 			rng := c.Rand()
@@ -267,7 +267,7 @@ func runC18(r *rt.Runner) {
 	}
 
 	// ---- (b) fresh processes with 16 goroutines each
-	nProc := r.N(40, 600)
+	nProc := r.N(64, 600)
 	for k := 0; k < nProc; k++ {
 		r.Case("concurrent", func(c *rt.C) {
 			exe, err := os.Executable()
